@@ -312,6 +312,8 @@ func (e *Engine) runExtra(name, prop string) []*Obligation {
 		return e.immutableFieldScan(prop)
 	case "grammar-values":
 		return e.grammarScan(prop)
+	case "sql-determinism":
+		return e.determinismScan(prop, "/sql", []string{"errors", "fmt", "strconv", "strings", "unicode", "unicode/utf8"})
 	}
 	return []*Obligation{{Name: "extra." + name, Kind: "frame", Status: "undecided", Clause: "unknown analysis " + name}}
 }
